@@ -2,10 +2,11 @@
    Only ExtrOcamlBasic is used: nat, positive, N, Z stay the extracted inductives. *)
 Require Extraction.
 Require Import ExtrOcamlBasic.
-From LogV Require Import Base.Bytes Base.Utf8 Base.JsonStr Model.Tag Model.Escape Model.Retention Model.Level Model.Deliver.
+From LogV Require Import Base.Bytes Base.Utf8 Base.JsonStr Model.Tag Model.Escape Model.Retention Model.Level Model.Deliver Model.Route.
 Extraction Language OCaml.
 Extraction "model.ml" Z.add Z.mul Z.opp Z.of_N Z.to_N N.add N.of_nat N.to_nat
   is_valid_tag build_tag register_tag all_tags
   bytes_eqb escape sanitize unescape
   clear_expired
-  builtin_levels parse_range deliver_refs deliver_simple deliver_rolling log_via entry_level.
+  builtin_levels parse_range deliver_refs deliver_simple deliver_rolling log_via entry_level
+  refresh_tags route trim_space.
